@@ -56,17 +56,6 @@ def cmd_parse(sim, vp, cmd, res):
         res["accepts_unknown_after_merge"] = True
     except settings.SettingsException:
         res["accepts_unknown_after_merge"] = False
-    if cmd.get("table_probe"):
-        # what main_res / main_traj run() do for --save_table: the table
-        # writer is called without format arguments, the settings decide
-        import pandas as pd
-        pb = importlib.import_module("evo.tools.pandas_bridge")
-        df = pd.DataFrame({"ca": [1.5, 2.5], "cb": [3.5, 4.5]},
-                          index=["rx", "ry"])
-        pb.save_df_as_table(df, cmd["table_probe"], confirm_overwrite=False)
-        with open(cmd["table_probe"]) as f:
-            res["table"] = f.read()
-        os.remove(cmd["table_probe"])
     if cmd.get("import_plot"):
         # what main_*.run() does next: import the plotting module, which
         # configures matplotlib / seaborn from SETTINGS at import time
@@ -83,6 +72,72 @@ def cmd_parse(sim, vp, cmd, res):
         for name in FP_MODULES:
             importlib.import_module(name)
         res["fingerprint"] = module_fingerprint()
+
+
+DATA = "/vhome/data"
+OUT = "/vhome/out"
+
+
+def cmd_app(sim, vp, cmd, res):
+    """a whole evo_<app> run, exactly as entry_points.launch() performs it:
+    parser, import of the main module, parse_args, merge_config, run(args)"""
+    app = cmd["app"]
+    for name in PARSE_PRELOAD + (f"evo.main_{app}_parser", ):
+        vproc.load_module(name)
+    parser = sys.modules[f"evo.main_{app}_parser"].parser()
+    sys.argv = [f"evo_{app}"] + list(cmd["argv"])
+    main_module = importlib.import_module(f"evo.main_{app}")
+    args = parser.parse_args(list(cmd["argv"]))
+    if hasattr(args, "config"):
+        args = sys.modules["evo.entry_points"].merge_config(args)
+    try:
+        main_module.run(args)
+    finally:
+        import matplotlib.pyplot as plt
+        plt.close("all")
+
+
+def app_input_files():
+    """two result archives and two TUM trajectories, built without evo"""
+    import io
+    import math
+    import zipfile
+    import numpy as np
+    files = {}
+    for i in (1, 2):
+        rng = np.random.default_rng(100 + i)
+        err = rng.random(24) + 0.1 * i
+        info = {"title": "APE w.r.t. translation part (m)\n(not aligned)",
+                "label": "APE (m)", "est_name": f"est{i}.txt",
+                "ref_name": "ref.txt"}
+        stats = {"rmse": float(np.sqrt((err**2).mean())),
+                 "mean": float(err.mean()), "median": float(np.median(err)),
+                 "std": float(err.std()), "min": float(err.min()),
+                 "max": float(err.max()), "sse": float((err**2).sum())}
+        arrays = {"error_array": err, "timestamps": np.arange(24.0) * 0.1,
+                  "seconds_from_start": np.arange(24.0) * 0.1,
+                  "distances_from_start": np.arange(24.0) * 0.5}
+        b = io.BytesIO()
+        with zipfile.ZipFile(b, "w") as z:
+            def put(name, data):
+                z.writestr(zipfile.ZipInfo(name, (2020, 1, 1, 0, 0, 0)), data)
+            put("info.json", json.dumps(info))
+            put("stats.json", json.dumps(stats))
+            for name, arr in arrays.items():
+                ab = io.BytesIO()
+                np.save(ab, arr)
+                put(name + ".npy", ab.getvalue())
+        files[f"{DATA}/r{i}.zip"] = b.getvalue()
+    for name, phase in (("a.txt", 0.0), ("b.txt", 0.05)):
+        lines = []
+        for k in range(30):
+            t = 0.1 * k
+            ang = 0.2 * k + phase
+            lines.append("%.6f %.6f %.6f %.6f 0 0 %.6f %.6f" % (
+                t, 3 * math.cos(ang) + phase, 3 * math.sin(ang), 0.1 * k,
+                math.sin(ang / 2), math.cos(ang / 2)))
+        files[f"{DATA}/{name}"] = ("\n".join(lines) + "\n").encode()
+    return files
 
 
 FP_MODULES = ("evo.core.units", "evo.core.transformations",
@@ -210,7 +265,48 @@ def cmd_lock(sim, vp, cmd, res):
 
 vproc.COMMANDS["parse"] = cmd_parse
 vproc.COMMANDS["lock"] = cmd_lock
+vproc.COMMANDS["app"] = cmd_app
 
+
+def plot_run_affordable(settings):
+    """can figures be rendered with these settings in reasonable time and
+    memory?  (nothing to do with right or wrong)"""
+    try:
+        fs = settings["plot_figsize"]
+        if not (isinstance(fs, list) and len(fs) == 2 and all(
+                not isinstance(x, bool) and isinstance(x, (int, float))
+                and 0.5 <= x <= 16 for x in fs)):
+            return False
+        for k, lo, hi in (("plot_fontscale", 0.1, 8), ("plot_linewidth", 0, 40),
+                          ("plot_axis_marker_scale", 0, 100),
+                          ("plot_reference_axis_marker_scale", 0, 100)):
+            x = settings[k]
+            if isinstance(x, bool) or not isinstance(x, (int, float)) or not (
+                    lo <= x <= hi):
+                return False
+        return sg.plot_import_safe(settings)
+    except (KeyError, TypeError):
+        return False
+
+
+# affordable values for the numeric plot settings of whole runs
+APP_RUN_VALUES = {
+    "plot_figsize": [[4, 3], [6, 6], [3, 5], [8, 4]],
+    "plot_fontscale": [0.8, 1.0, 1.5],
+    "plot_linewidth": [0.5, 1.5, 3, 4.0],
+    "plot_trajectory_alpha": [0.3, 0.75, 1.0],
+}
+
+# settings consumed by the table writer and by plotting
+APP_RUN_KEYS = [
+    "table_export_format", "table_export_transpose", "table_export_data",
+    "plot_linewidth", "plot_figsize", "plot_fontfamily", "plot_fontscale",
+    "plot_seaborn_style", "plot_seaborn_enabled", "plot_split",
+    "plot_statistics", "plot_legend_loc", "plot_show_legend",
+    "plot_xyz_realistic", "plot_multi_cmap", "plot_seaborn_palette",
+    "plot_trajectory_alpha", "plot_show_axis", "plot_mode_default",
+    "plot_reference_linestyle", "plot_trajectory_linestyle",
+]
 
 # names that are not among the settings keys: free ones, option names of the
 # apps, and names the container class itself has (methods of dict, its own)
@@ -588,8 +684,8 @@ class C18(Check):
         "generate_int_option", "generate_negative_number",
         "generate_multi_value", "generate_overwrite_prompt",
         "run_c_overrode_cli", "run_c_overrode_settings", "lock_refused",
-        "run_c_plot_import_checked", "run_c_table_writer_checked",
-        "run_c_table_setting_overridden", "run_c_fingerprint_with_override",
+        "run_c_plot_import_checked", "run_c_fingerprint_with_override",
+        "real_run_pairs_with_output", "real_run_pairs_with_effective_override",
     )
 
     def setup_worker(self):
@@ -607,8 +703,32 @@ class C18(Check):
             import mpl_toolkits.mplot3d.art3d  # noqa
             import matplotlib.backends.backend_pdf  # noqa
             import matplotlib.backends.backend_svg  # noqa
+            import matplotlib.backends.backend_agg  # noqa
+            import pandas  # noqa (evo.tools.pandas_bridge)
+            import scipy.spatial.transform  # noqa (evo.core.lie_algebra)
+            import rosbags.rosbag1  # noqa (evo.tools.file_interface)
+            import rosbags.rosbag2  # noqa
+            import rosbags.typesys  # noqa
         except Exception as e:  # pragma: no cover
             raise HarnessError(f"cannot pre-import third-party modules: {e}")
+        self.app_inputs = app_input_files()
+        from ..core import load_known_findings
+        self.open_sigs = {sig for sig, _ in load_known_findings(self.prop)[0]}
+        self.known_override_keys = set()
+        for sig in self.open_sigs:
+            if ":override-without-effect:" in sig:
+                self.known_override_keys.update(
+                    sig.rsplit(":", 1)[1].split("+"))
+        try:
+            # whole runs render figures: an absurd figure size stored by an
+            # earlier operation must fail fast, not exhaust the machine
+            import resource
+            soft, hard = resource.getrlimit(resource.RLIMIT_AS)
+            limit = 16 << 30
+            if hard == resource.RLIM_INFINITY or hard > limit:
+                resource.setrlimit(resource.RLIMIT_AS, (limit, hard))
+        except (ImportError, ValueError, OSError):
+            pass
         vproc.install_patches()
         self.dflt, self.version = sg.defaults()
         self.keys = sorted(self.dflt)
@@ -762,6 +882,24 @@ class C18(Check):
                 ops.append({"op": "run_c", "app": app, "sub": sub,
                             "positional": pos, "argv": cli, "config": path,
                             "fingerprint": rng.random() < 0.5})
+            elif r < 0.962:
+                # a whole run of a command with a -c config of settings keys,
+                # against the same run with those values stored
+                app = rng.choice(["res", "res", "res", "traj", "traj", "traj",
+                                  "ape", "rpe"])
+                plots = app in ("ape", "rpe") or rng.random() < 0.2
+                pool = APP_RUN_KEYS if rng.random() < 0.7 else keys
+                overrides = {}
+                for k in rng.sample(pool, rng.randint(1, 3)):
+                    if k not in dflt:
+                        continue
+                    if k in APP_RUN_VALUES:
+                        overrides[k] = rng.choice(APP_RUN_VALUES[k])
+                        continue
+                    g = sg.gen_group(rng, k, dflt[k])
+                    overrides[k] = sg.user_value(dflt[k], g[1:], k)
+                ops.append({"op": "app_run", "app": app, "plots": plots,
+                            "overrides": overrides})
             else:
                 k1, k2 = rng.sample(keys, 2)
                 g1 = sg.gen_group(rng, k1, dflt[k1])
@@ -780,8 +918,11 @@ class C18(Check):
 
     def _gen_tokens(self, rng, tkeys, tmodel, max_groups=4):
         tokens = []
+        # the container's lock flag may be present in a file, a parameter to
+        # set it is not
+        names = [k for k in tkeys if k != sg.RESERVED_KEY] or list(tkeys)
         for _ in range(rng.randint(1, max_groups)):
-            k = rng.choice(tkeys)
+            k = rng.choice(names)
             v = tmodel.get(k)
             if v is None and k not in self.dflt:
                 g = [k, rng.choice(["abc", "2", "0.5", "xz"])]
@@ -840,6 +981,7 @@ class C18(Check):
         res = RunResult()
         trail = []
         violation = None
+        known = None
         changed_any = False
         for oi, op in enumerate(case["ops"]):
             before = digest_of(sorted(sim.fs.snapshot().items()))
@@ -855,8 +997,13 @@ class C18(Check):
             if violation is not None:
                 violation["detail"]["op_index"] = oi
                 violation["detail"]["op"] = op
+                if violation["sig"] in self.open_sigs:
+                    # a recorded finding: note it and go on with the history
+                    known = known or violation
+                    violation = None
+                    continue
                 break
-        res.violation = violation
+        res.violation = violation or known
         res.digest = digest_of([trail, violation["sig"] if violation else 0])
         res.steps = sim.step
         res.sim_time = sim.now
@@ -1093,6 +1240,17 @@ class C18(Check):
             return self._op_run_c(sim, model, op, res)
         if kind == "lock":
             return self._op_lock(sim, model, op, res)
+        if kind == "app_run":
+            # make sure initialisation / upgrade have happened (as any start
+            # does) before the two runs are compared
+            results = self._run(sim, [{"cmd": "start"}])
+            self._start_events(sim, model, res)
+            v = self._check_process("app_run", results)
+            if v:
+                return v
+            v = self._override_differential(sim, model, "app_run", op["app"],
+                                            op["overrides"], op["plots"])
+            return v or self._compare_disk(sim, model, "app_run", [])
         raise HarnessError(f"unknown op {kind}")
 
     # -- generate / -c equivalence
@@ -1188,14 +1346,9 @@ class C18(Check):
                 effective.setdefault(k, v)
         effective.update({k: v for k, v in cfg.items() if k in effective})
         import_plot = sg.plot_import_safe(effective)
-        table_probe = None
-        if op["app"] in ("res", "traj") and effective.get(
-                "table_export_format") in ("csv", "json") and isinstance(
-                    effective.get("table_export_transpose"), bool):
-            table_probe = f"{WORK}/table_probe_out"
         cmds = [
             {"cmd": "parse", "app": op["app"], "import_plot": import_plot,
-             "entry_order": True, "table_probe": table_probe,
+             "entry_order": True,
              "fingerprint": bool(op.get("fingerprint")) and (
                  model.settings is not None
                  and model.version == model.cur_version),
@@ -1250,8 +1403,12 @@ class C18(Check):
         for k in ms:
             if k not in st:
                 return self._fail("run_c", "settings-key-lost", key=k)
-        # settings that evo.tools.plot consumes when it is imported must be the
-        # overridden ones as well
+        # What evo.tools.plot configured when it was imported, and what the
+        # loaded modules froze at import time, should be the overridden values
+        # as well.  A mismatch is only a suspicion (a later step of run() could
+        # re-apply the settings or pass them explicitly): it is confirmed, or
+        # dropped, by whole runs of the command that write real outputs.
+        suspicion = None
         rc = results[0].get("rc")
         if rc is not None:
             sim.probe("run_c_plot_import_checked")
@@ -1261,44 +1418,28 @@ class C18(Check):
                 "font.family": [st["plot_fontfamily"]],
                 "text.usetex": st["plot_usetex"],
                 "pgf.texsystem": st["plot_texsystem"],
+                "backend": str(st["plot_backend"]).lower(),
             }
+            rc = dict(rc, backend=str(rc["backend"]).lower())
             for k, v in want.items():
                 if rc[k] != v and not (k == "lines.linewidth"
                                        and float(rc[k]) == v):
-                    return self._fail(
-                        "run_c", "import-time-setting-not-overridden",
-                        rc_key=k, expected=v, actual=rc[k],
-                        overridden_by_config=sorted(
-                            k2 for k2 in cfg if k2 in sg.PLOT_IMPORT_KEYS))
-            if str(rc["backend"]).lower() != str(
-                    st["plot_backend"]).lower():
-                return self._fail("run_c",
-                                  "import-time-setting-not-overridden",
-                                  rc_key="backend",
-                                  expected=st["plot_backend"],
-                                  actual=rc["backend"])
-        table = results[0].get("table")
-        if table is not None:
-            sim.probe("run_c_table_writer_checked")
-            fmt = "json" if table.lstrip().startswith("{") else "csv"
-            head = table.lstrip()[:12]
-            if fmt == "json":
-                transposed = head.startswith('{"rx"')
-            else:
-                transposed = head.startswith(",rx")
-            for key, got in (("table_export_format", fmt),
-                             ("table_export_transpose", transposed)):
-                if got != st[key]:
-                    return self._fail(
-                        "run_c", "import-time-setting-not-overridden",
-                        key=key, expected=st[key], actual=got, app=op["app"],
-                        in_config=key in cfg)
-                if key in cfg and not same(cfg[key], ms[key]):
-                    sim.probe("run_c_table_setting_overridden")
-        v = self._fingerprint_check(sim, model, op, pos, cfg, st, ms,
-                                    import_plot, results[0])
-        if v:
-            return v
+                    suspicion = {"matplotlib_rc": k, "expected": v,
+                                 "actual": rc[k]}
+                    break
+        if suspicion is None:
+            suspicion = self._fingerprint_suspicion(
+                sim, model, op, pos, cfg, st, ms, import_plot, results[0])
+        if suspicion is not None:
+            sim.probe("run_c_suspicion")
+            overrides = {k: v for k, v in cfg.items()
+                         if k in ms and k in self.dflt}
+            v = self._override_differential(sim, model, "run_c", op["app"],
+                                            overrides, True)
+            if v:
+                v["detail"]["first_noticed_as"] = suspicion
+                return v
+            sim.probe("run_c_suspicion_not_confirmed_by_real_runs")
         # the next process sees the durable values again
         st2 = results[2]["settings"]
         for k, val in ms.items():
@@ -1307,12 +1448,14 @@ class C18(Check):
                                   expected=val, actual=st2.get(k))
         return self._compare_disk(sim, model, "run_c", [])
 
-    def _fingerprint_check(self, sim, model, op, pos, cfg, st, ms,
-                           import_plot, first):
-        """'overrides matching package settings for that run': the run must
+    def _fingerprint_suspicion(self, sim, model, op, pos, cfg, st, ms,
+                               import_plot, first):
+        """'overrides matching package settings for that run': the run should
         be indistinguishable from one in which the overridden values are the
-        stored ones.  Differential oracle over what the loaded evo modules
-        froze at import time (argument defaults, plain globals)."""
+        stored ones.  Compares what the loaded evo modules froze at import
+        time (argument defaults, plain globals) in the two processes; a
+        difference is a suspicion, not a verdict (the frozen value may never
+        be used)."""
         fp_a = first.get("fingerprint")
         if fp_a is None:
             return None
@@ -1328,9 +1471,8 @@ class C18(Check):
                  "argv": pos + list(op["argv"])}])
         finally:
             sim.fs.write_bytes(SETTINGS_PATH, orig)
-        v = self._check_process("run_c", results)
-        if v:
-            return v
+        if self._check_process("run_c", results):
+            return None
         fp_b = results[0].get("fingerprint") or {}
         sim.probe("run_c_fingerprint_compared")
         overridden = sorted(k for k in cfg if k in ms and not same(cfg[k],
@@ -1339,11 +1481,139 @@ class C18(Check):
             sim.probe("run_c_fingerprint_with_override")
         for k in sorted(set(fp_a) | set(fp_b)):
             if fp_a.get(k) != fp_b.get(k):
-                return self._fail(
-                    "run_c", "import-time-setting-not-overridden", item=k,
-                    with_override=fp_a.get(k), when_stored=fp_b.get(k),
-                    app=op["app"], overridden_by_config=overridden)
+                return {"frozen_at_import": k, "with_override": fp_a.get(k),
+                        "when_stored": fp_b.get(k)}
         return None
+
+    # -- whole runs of a command on the simulated disk
+    APP_ARGV = {
+        "res": [f"{DATA}/r1.zip", f"{DATA}/r2.zip", "--save_table",
+                f"{OUT}/table"],
+        "traj": ["tum", f"{DATA}/a.txt", f"{DATA}/b.txt", "--save_table",
+                 f"{OUT}/table"],
+        "ape": ["tum", f"{DATA}/a.txt", f"{DATA}/b.txt"],
+        "rpe": ["tum", f"{DATA}/a.txt", f"{DATA}/b.txt"],
+    }
+
+    def _real_run(self, sim, app, plots, config):
+        fs = sim.fs
+        fs.remove_tree(OUT)
+        fs.make_dirs(OUT)
+        for path, data in self.app_inputs.items():
+            if fs.lookup(path) is None:
+                fs.make_dirs(DATA)
+                fs.write_bytes(path, data)
+        argv = list(self.APP_ARGV[app]) + ["--no_warnings"]
+        if plots or app in ("ape", "rpe"):
+            argv += ["--save_plot", f"{OUT}/plot.png"]
+        if config:
+            argv += ["-c", config]
+        r = self._run(sim, [{"cmd": "app", "app": app, "argv": argv}])[0]
+        outs = {}
+        for path in sorted(fs.ents):
+            if path.startswith(OUT + "/"):
+                data = fs.read_bytes(path)
+                if data is not None:
+                    outs[path[len(OUT) + 1:]] = data
+        fs.remove_tree(OUT)
+        outcome = (r.get("exc_type") or (
+            "exit %r" % (r.get("exit"), ) if r.get("exit") else None))
+        return outcome, outs, r
+
+    def _pair_differs(self, sim, app, plots, overrides, stored, orig):
+        fs = sim.fs
+        cfg_path = f"{DATA}/override.json"
+        fs.write_bytes(cfg_path, sg.dumps(overrides).encode())
+        try:
+            out_a, files_a, _ = self._real_run(sim, app, plots, cfg_path)
+            eff = dict(stored)
+            eff.update({k: v for k, v in overrides.items()
+                        if k in stored and k != sg.RESERVED_KEY})
+            fs.write_bytes(SETTINGS_PATH, sg.dumps(eff).encode())
+            out_b, files_b, _ = self._real_run(sim, app, plots, None)
+        finally:
+            fs.write_bytes(SETTINGS_PATH, orig)
+            if fs.lookup(cfg_path) is not None:
+                del fs.ents[cfg_path]
+        return (out_a, files_a) != (out_b, files_b)
+
+    def _override_differential(self, sim, model, kind, app, overrides, plots):
+        """process A: the stored settings and a -c config holding `overrides`;
+        process B: no -c, the overridden values are the stored ones.  Same
+        command, same inputs: the outcome and every output file must be the
+        same, byte for byte."""
+        if model.settings is None or model.version != model.cur_version:
+            return None
+        fs = sim.fs
+        orig = fs.read_bytes(SETTINGS_PATH)
+        if orig is None:
+            return None
+        try:
+            stored = json.loads(orig)
+        except ValueError:
+            return None
+        if plots or app in ("ape", "rpe"):
+            eff = dict(stored)
+            eff.update(overrides)
+            if not (plot_run_affordable(stored) and plot_run_affordable(eff)):
+                # e.g. a figure of 1e9 x 1e9 inches: rendering is out of reach
+                sim.probe("real_run_skipped_unaffordable_plot_settings")
+                if app in ("ape", "rpe"):
+                    return None
+                plots = False
+        cfg_path = f"{DATA}/override.json"
+        fs.make_dirs(DATA)
+        fs.write_bytes(cfg_path, sg.dumps(overrides).encode())
+        try:
+            out_a, files_a, ra = self._real_run(sim, app, plots, cfg_path)
+            eff = dict(stored)
+            eff.update({k: v for k, v in overrides.items()
+                        if k in stored and k != sg.RESERVED_KEY})
+            fs.write_bytes(SETTINGS_PATH, sg.dumps(eff).encode())
+            out_b, files_b, rb = self._real_run(sim, app, plots, None)
+            equal = (out_a, files_a) == (out_b, files_b)
+            if not equal:
+                # guard: is the command's output a function of its inputs?
+                out_b2, files_b2, _ = self._real_run(sim, app, plots, None)
+                if (out_b2, files_b2) != (out_b, files_b):
+                    sim.probe("real_run_not_reproducible")
+                    return None
+        finally:
+            fs.write_bytes(SETTINGS_PATH, orig)
+            if fs.lookup(cfg_path) is not None:
+                del fs.ents[cfg_path]
+        sim.probe("real_run_pairs")
+        if files_a:
+            sim.probe("real_run_pairs_with_output")
+        if any(k in stored and not same(stored[k], v)
+               for k, v in overrides.items()):
+            sim.probe("real_run_pairs_with_effective_override")
+        if equal:
+            return None
+        # which of the overridden keys are responsible?  (greedy 1-minimal
+        # subset that still shows a difference; identifies the finding)
+        keys = sorted(overrides)
+        # keys of recorded findings are tried first, so that a recorded one
+        # does not absorb a new one present in the same set
+        first = [k for k in keys if k in self.known_override_keys]
+        for k in first + [k for k in keys if k not in first]:
+            if len(keys) == 1:
+                break
+            trial = {x: overrides[x] for x in keys if x != k}
+            if self._pair_differs(sim, app, plots, trial, stored, orig):
+                keys.remove(k)
+        what = "override-without-effect:" + "+".join(keys)
+        diff = sorted(set(files_a) ^ set(files_b)) + sorted(
+            k for k in set(files_a) & set(files_b)
+            if files_a[k] != files_b[k])
+        return self._fail(
+            kind, what, app=app, responsible_keys=keys,
+            overrides=overrides, outcome_with_override=out_a,
+            outcome_when_stored=out_b, differing_outputs=diff[:6],
+            sizes={k: [len(files_a.get(k, b"")), len(files_b.get(k, b""))]
+                   for k in diff[:6]},
+            exception_with_override=ra.get("exc"),
+            exception_when_stored=rb.get("exc"))
 
     def _op_lock(self, sim, model, op, res):
         cmd = dict(op, cmd="lock")
@@ -1434,6 +1704,22 @@ class C18(Check):
                 {"op": "set", "target": None, "tokens": g, "no_color": True},
                 {"op": "reset_subset", "keys": [k]},
             ]})
+        # whole runs: each consumer of a per-run override once, by itself
+        for app, plots, ov in (
+                ("res", False, {"table_export_format": "json"}),
+                ("res", False, {"table_export_transpose": False}),
+                ("traj", False, {"table_export_format": "json",
+                                 "table_export_transpose": False}),
+                ("res", True, {"plot_linewidth": 4.0}),
+                ("traj", True, {"plot_figsize": [4, 3]}),
+                ("ape", True, {"plot_fontfamily": "serif"}),
+                ("rpe", True, {"plot_seaborn_style": "whitegrid"}),
+                ("traj", True, {"plot_mode_default": "xy"}),
+                ("ape", True, {"plot_mode_default": "xz"}),
+        ):
+            cases.append({"kind": "schema", "seed": 3, "init": cur, "ops": [
+                {"op": "app_run", "app": app, "plots": plots,
+                 "overrides": ov}]})
         return cases
 
     # ------------------------------------------------------------ shrinking
